@@ -48,6 +48,24 @@ def has_fluent(tree):
     return any(has_fluent(c) for c in tree["c"])
 
 
+def fluent_leaves(tree, acc):
+    if tree["t"] != "l":
+        return acc
+    h = tree["c"][0]
+    if h["t"] == "s" and h["v"] in FUNCS:
+        acc.append(tree)
+        return acc
+    for c in tree["c"]:
+        fluent_leaves(c, acc)
+    return acc
+
+
+def layout_flat(tree):
+    if tree["t"] == "l":
+        return "(" + " ".join(layout_flat(c) for c in tree["c"]) + ")"
+    return str(tree["v"])
+
+
 class Gen:
     def __init__(self, rng, params, with_forall=True, with_numeric=True, with_consts=True):
         self.rng = rng
@@ -106,15 +124,34 @@ class Gen:
             right = rng.choice([N(2), N(4), N(-2), N(1, 2)])  # dyadic divisors keep values exact
         else:
             right = self.expr(depth - 1, extra)
+        if op == "*" and (left == N(0) or right == N(0)):
+            # multiplication by a literal zero folds the whole term away in the simplifier
+            if left == N(0):
+                left = N(2)
+            else:
+                right = N(2)
+        if left == right:
+            # x - x, x / x: folded to a constant by the symbolic simplifier (C13's territory)
+            right = rng.choice([N(2), N(3), N(1, 2)])
         if left["t"] == "n" and right["t"] == "n":
             # arithmetic on two literals is folded by the symbolic simplifier in ways it cannot always
             # print back ((- 0 -1)); such constant sub-expressions are kept out of the fragment
             left = self.fluent(extra)
         return L(S(op), left, right)
 
+    def side(self, depth, extra):
+        """one side of a comparison: no fluent occurs twice (a fluent that cancels, as in (- (- (g) 3) (g)),
+        is folded to a constant by the symbolic simplifier that prints nested / conditional conditions)"""
+        for _ in range(6):
+            e = self.expr(depth, extra)
+            leaves = [layout_flat(x) for x in fluent_leaves(e, [])]
+            if len(leaves) == len(set(leaves)):
+                return e
+        return self.fluent(extra)
+
     def cmp(self, extra=()):
         rng = self.rng
-        left, right = self.expr(rng.choice([0, 1, 1, 2]), extra), self.expr(rng.choice([0, 0, 1]), extra)
+        left, right = self.side(rng.choice([0, 1, 1, 2]), extra), self.side(rng.choice([0, 0, 1]), extra)
         if not has_fluent(left) and not has_fluent(right):  # comparisons of constants are not in the fragment
             left = self.fluent(extra)
         op = rng.choice(["<", "<=", "=", ">=", ">"])
